@@ -51,6 +51,9 @@ func installHooks() {
 				return
 			}
 			key := fmt.Sprintf("%p", args[0])
+			if name == "handler.command" && len(args) > 1 && fmt.Sprint(args[1]) == ".ack" {
+				return // the client's acknowledgement of the close is not a read command
+			}
 			hookMu.Lock()
 			hookLog[key] = append(hookLog[key], name)
 			hookMu.Unlock()
@@ -186,14 +189,17 @@ func init() {
 		hookMu.Unlock()
 		late := false
 		sawShutdown := false
+		lateFrom := 0 // number of commands counted before the counter first returned to 0
 		for _, e := range events {
 			if e == "handler.shutdown" {
 				sawShutdown = true
 			} else if sawShutdown {
 				late = true // a command was counted after the counter had returned to 0
+			} else {
+				lateFrom++
 			}
 		}
 		return map[string]interface{}{"frames": frames, "syn": acked, "closed": closed, "zero_before_cmd": zeroBefore,
-			"late_command": late, "events": events}, nil
+			"late_command": late, "late_from": lateFrom, "events": events}, nil
 	}
 }
